@@ -6,6 +6,7 @@ CONSTANTS
   Prots <- ProtsDefault
   FixDelete = TRUE
   FixPatch = FALSE
+  CacheTrunc = TRUE
 INVARIANT TypeOK
 INVARIANT Confined
 INVARIANT UnsafeRefused
